@@ -75,7 +75,7 @@ Qed.
 
 Lemma step_out s e : progress_frames (out (step s e)) = progress_frames (out s).
 Proof.
-  destruct e as [m rt cb mid|j p oks|j c m d|k0|j|j|j res|j]; cbn [step].
+  destruct e as [m rt cb mid|j p oks|j c m d|k0|j|j|j res|j]; cbn [step_with cancel_with xnone].
   - destruct mid; cbn; rewrite progress_frames_app; cbn; rewrite app_nil_r; reflexivity.
   - destruct (iget j (rtypes s)) as [rt|]; [|reflexivity]. destruct (mem_n rt oks); [|reflexivity].
     destruct (handle_response_tables (set_rtypes s (adel id_eqb j (rtypes s))) j (ORes rt p))
@@ -280,17 +280,17 @@ Lemma complete_tokens_pending s k oc o :
                              | _, _ => tokens s
                              end.
 Proof.
-  intros G P. unfold complete. rewrite G, P. unfold run_callbacks.
+  intros G P. unfold complete_with, xnone. rewrite G, P. unfold run_callbacks.
   destruct oc; cbn [ost set_ost ocb]; [|reflexivity].
-  destruct (ocb o) as [| |t u]; [reflexivity|reflexivity|]. destruct u; reflexivity.
+  destruct (ocb o) as [|kn|kn|t u]; [reflexivity|reflexivity|reflexivity|]. destruct u; reflexivity.
 Qed.
 
 Lemma PInv_complete s L k oc : PInv s L -> PInv (complete s k oc) L.
 Proof.
   intros I. destruct (nget k (ofuts s)) as [o|] eqn:G.
-  2: { unfold complete. rewrite G. exact I. }
+  2: { unfold complete_with, xnone. rewrite G. exact I. }
   destruct (is_pending (ost o)) eqn:P.
-  2: { unfold complete. rewrite G, P. apply (PInv_ext s); [reflexivity|reflexivity|exact I]. }
+  2: { unfold complete_with, xnone. rewrite G, P. apply (PInv_ext s); [reflexivity|reflexivity|exact I]. }
   pose proof (complete_ofuts_pending s k oc o G P) as O.
   pose proof (complete_tokens_pending s k oc o G P) as T.
   assert (U : forall o0, In (k, o0) (ofuts s) -> o0 = o).
@@ -311,7 +311,9 @@ Proof.
                                    else set_ost o (Resolved rt p))
                     = match ocb o with CbCreate t _ => id_eqb t tok | _ => false end).
       { destruct (cbflag (ocb o)); apply AF; reflexivity. }
-      destruct (ocb o) as [| |t u] eqn:CB.
+      destruct (ocb o) as [|kn|kn|t u] eqn:CB.
+      * split; [left; assumption|]. intros [X|(o0 & _ & _ & Q)]; [exact X|]. cbn zeta in Q.
+        rewrite AFF in Q. discriminate.
       * split; [left; assumption|]. intros [X|(o0 & _ & _ & Q)]; [exact X|]. cbn zeta in Q.
         rewrite AFF in Q. discriminate.
       * split; [left; assumption|]. intros [X|(o0 & _ & _ & Q)]; [exact X|]. cbn zeta in Q.
@@ -330,7 +332,7 @@ Qed.
 
 Lemma PInv_handle_response s L i oc : PInv s L -> PInv (handle_response s i oc) L.
 Proof.
-  intros I. unfold handle_response. destruct (iget i (futs s)) as [[k|]|].
+  intros I. unfold handle_response_with. destruct (iget i (futs s)) as [[k|]|].
   - apply PInv_complete. apply (PInv_ext s); [reflexivity|reflexivity|exact I].
   - apply (PInv_ext s); [reflexivity|reflexivity|exact I].
   - apply (PInv_ext s); [reflexivity|reflexivity|exact I].
@@ -338,7 +340,7 @@ Qed.
 
 Lemma PInv_step s L e : PInv s L -> PInv (step s e) L.
 Proof.
-  intros I. destruct e as [m rt cb mid|j p oks|j c m d|k0|j|j|j res|j]; cbn [step].
+  intros I. destruct e as [m rt cb mid|j p oks|j c m d|k0|j|j|j res|j]; cbn [step_with cancel_with xnone].
   - apply PInv_send; [exact I|discriminate].
   - destruct (iget j (rtypes s)) as [rt|]; [|apply (PInv_ext s); [reflexivity|reflexivity|exact I]].
     destruct (mem_n rt oks); [|apply (PInv_ext s); [reflexivity|reflexivity|exact I]].
